@@ -11,6 +11,7 @@ package main
 //     "all other properties are left exactly as they were" is a string comparison.
 
 import (
+	"encoding/json"
 	"fmt"
 	"reflect"
 	"strings"
@@ -109,6 +110,78 @@ func c11Render(it ap.Item, sb *strings.Builder, leaks *[]string, path string) {
 		}
 	}
 	sb.WriteString(")")
+}
+
+// c11JSONLeaks pairs the value after Clean with the JSON text written for it (decoded with encoding/json,
+// independently of the library) and reports every member named bto / bcc of the object written for the value
+// itself or for a struct embedded by pointer along the walked properties.  Lists are followed when the
+// written array (or the compacted single element) has one element per entry that is not nil-like; otherwise
+// that list is not judged.
+func c11JSONLeaks(it ap.Item, raw json.RawMessage, path string, leaks *[]string) {
+	if it == nil || len(raw) == 0 {
+		return
+	}
+	list := func(c ap.ItemCollection) {
+		var kept []ap.Item
+		for _, e := range c {
+			if !ap.IsNil(e) {
+				kept = append(kept, e)
+			}
+		}
+		if len(kept) == 1 {
+			c11JSONLeaks(kept[0], raw, path+"[0]", leaks)
+			return
+		}
+		var arr []json.RawMessage
+		if json.Unmarshal(raw, &arr) != nil || len(arr) != len(kept) {
+			return
+		}
+		for i, e := range kept {
+			c11JSONLeaks(e, arr[i], fmt.Sprintf("%s[%d]", path, i), leaks)
+		}
+	}
+	switch v := it.(type) {
+	case ap.ItemCollection:
+		list(v)
+		return
+	case *ap.ItemCollection:
+		if v != nil {
+			list(*v)
+		}
+		return
+	}
+	rv := reflect.ValueOf(it)
+	if rv.Kind() != reflect.Pointer || rv.IsNil() || rv.Elem().Kind() != reflect.Struct || rv.Elem().Type().Name() == "Link" {
+		return
+	}
+	var m map[string]json.RawMessage
+	if json.Unmarshal(raw, &m) != nil {
+		return
+	}
+	for _, k := range []string{"bto", "bcc"} {
+		if _, ok := m[k]; ok {
+			*leaks = append(*leaks, path+"."+k)
+		}
+	}
+	st := rv.Elem()
+	rt := st.Type()
+	for _, name := range c11WalkedOf(rt) {
+		f, ok := rt.FieldByName(name)
+		if !ok {
+			continue
+		}
+		term := strings.Split(f.Tag.Get("jsonld"), ",")[0]
+		child, ok := m[term]
+		if !ok {
+			continue
+		}
+		fv := st.FieldByName(name)
+		if fv.Type() == tItems {
+			c11JSONLeaks(fv.Interface().(ap.ItemCollection), child, path+"."+term, leaks)
+		} else if !fv.IsNil() {
+			c11JSONLeaks(fv.Interface().(ap.Item), child, path+"."+term, leaks)
+		}
+	}
 }
 
 var c11Secret = ap.ItemCollection{ap.IRI("https://example.com/secret/1"), ap.IRI("https://example.com/secret/2")}
@@ -225,6 +298,15 @@ func runC11(seed int64, n int, tier string, outDir string) (*Report, error) {
 		"Definition ok (c : item * item * item) : bool := let '(x, ret, after) := c in\n" +
 		"  match clean_m x with Ok a => item_eqb a after && item_eqb (clean_recipients_ret x a) ret | _ => false end.\n"
 	cw := NewCaseWriter(outDir, "Cases_C11", hdr, "item * item * item")
+	// the bytes MarshalJSON writes after Clean against enc (clean_m x): the objects of the byte-level theorems
+	// C11_bytes / C11_bytes_top
+	hdrB := "From AP.Model Require Import Prelude Vocab Pred Clean CleanGen Json JsonLeaf JsonTables JsonEnc JsonCodec.\n" +
+		"Definition ok (c : item * (N * N)) : bool := let '(x, o) := c in\n" +
+		"  match clean_m x with\n" +
+		"  | Ok a => match enc a with Some b => (N.of_nat (length b) =? fst o)%N && (fnv64 b =? snd o)%N | None => false end\n" +
+		"  | _ => false end.\n"
+	cwB := NewCaseWriter(outDir, "Cases_C11_bytes", hdrB, "item * (N * N)")
+	cwB.SetChunk(25, 1)
 
 	eval := func(x ap.Item, idx int, label string, toCoq bool) {
 		before := CoqItem(x)
@@ -265,6 +347,33 @@ func runC11(seed int64, n int, tier string, outDir string) (*Report, error) {
 		}
 		if toCoq {
 			cw.Add("("+before+", "+CoqItem(ret)+", "+CoqItem(x)+")", fmt.Sprintf("seed=%d index=%d %s", seed, idx, label))
+		}
+		// serialised bytes after Clean (structs only: the values C02's correspondence covers)
+		if m, ok := x.(json.Marshaler); ok && x != nil {
+			rk := reflect.ValueOf(x)
+			if rk.Kind() == reflect.Pointer && !rk.IsNil() {
+				rk = rk.Elem()
+			}
+			if rk.Kind() == reflect.Struct {
+				out, err := m.MarshalJSON()
+				if err == nil {
+					rep.Evaluations++
+					if len(out) > 0 && !json.Valid(out) {
+						rep.Violate(Violation{Op: "MarshalJSON after Clean", Input: in, Expected: "valid JSON", Observed: string(out), Index: idx})
+					}
+					var jl []string
+					c11JSONLeaks(x, out, "x", &jl)
+					if len(jl) > 0 {
+						rep.Violate(Violation{Op: "MarshalJSON after Clean", Input: in, Expected: "no member named bto or bcc on the value or on objects embedded by pointer along the walk", Observed: strings.Join(jl, ", ") + " in " + string(out), Index: idx})
+					}
+					if len(leaksB) > 0 {
+						rep.Count("bytes:private-reachable-before")
+					}
+					if toCoq {
+						cwB.Add("("+before+", "+hxSum(out)+")", fmt.Sprintf("seed=%d index=%d %s bytes", seed, idx, label))
+					}
+				}
+			}
 		}
 		if idx < 2 {
 			rep.Sample(map[string]any{"x": before, "after": CoqItem(x), "reachable_before": leaksB})
@@ -324,7 +433,11 @@ func runC11(seed int64, n int, tier string, outDir string) (*Report, error) {
 	if err != nil {
 		return nil, err
 	}
-	rep.CaseFiles = []string{p}
-	rep.CoqCases = cw.total
+	pB, err := cwB.Close()
+	if err != nil {
+		return nil, err
+	}
+	rep.CaseFiles = []string{p, pB}
+	rep.CoqCases = cw.total + cwB.total
 	return rep, nil
 }
